@@ -264,6 +264,82 @@ def gen_stock(rng, table, lib, zone, dyadic=False):
     return [(t, e, f) for (t, e), f in zip(rows, fr)], kinds
 
 
+NEW_TYPES = ('labtower', 'rowhouse', 'customa')
+
+
+def era_family(rng, lib, zone, n, dyadic=False, real=False):
+    """Stocks and custom vectors built around ONE building type that exists in some eras only, or in
+    several eras at once. The DOE types always come in all three eras, so this only arises with
+    (a) a NEW custom type supplied for 1, 2 or 3 eras (customs listed in any order, optionally with a
+        revised custom of one era, a second new type, a custom that replaces a DOE cell), and
+    (b) a synthetic library whose row of a type holds a None cell at the zone column.
+    Stock shapes per member: every supplied era / a subset of them / a supplied AND an unsupplied era
+    of the type / only an unsupplied era - mixed with other available rows, era text in any case,
+    duplicate rows. Unsupplied eras make the stock unrealisable: the whole stock must be refused."""
+    out = []
+    zi = REFZ.index(proxy(zone))
+    partial = []
+    if not real and zi < lib['nz']:
+        for i in range(lib['nt']):
+            have = [j for j in range(3) if lib['cells'][i][j][zi]]
+            if 0 < len(have) < 3:
+                partial.append((lib['cells'][i][have[0]][zi][0], have))
+    for k in range(n):
+        customs = []
+        if partial and k % 3 == 2:
+            t, supplied = rng.choice(partial)
+            kind = 'libtype'
+        else:
+            t = rng.choice(NEW_TYPES)
+            supplied = rng.sample(range(3), rng.choice([1, 2, 2, 3]))
+            customs = [(t, e, 1000 + i, gen_vals(rng, dyadic)) for i, e in enumerate(supplied)]
+            kind = 'newtype%d' % len(supplied)
+            r = rng.random()
+            if r < 0.2:
+                customs.insert(rng.randrange(len(customs) + 1),
+                               ('customb', rng.randrange(3), 1100, gen_vals(rng, dyadic)))
+            elif r < 0.35:
+                customs.append((t, supplied[0], 1200, gen_vals(rng, dyadic)))      # revised: the later one wins
+                kind += '+revised'
+            elif r < 0.5:
+                customs.insert(0, (REF_BLDTYPE[rng.randrange(min(lib['nt'], 16))], rng.randrange(3), 1300,
+                                   gen_vals(rng, dyadic)))
+        table, flags = expected_column(lib, zone, customs)
+        if customs and lib_nonref(lib) and any(c[0] in REF_BLDTYPE for c in customs):
+            flags.add('nonref')
+        missing = [e for e in range(3) if (t, e) not in table]
+        present = [e for e in range(3) if (t, e) in table]
+        shape = rng.choice(['all', 'subset', 'supplied+unsupplied', 'supplied+unsupplied', 'unsupplied-only'])
+        if not missing and shape in ('supplied+unsupplied', 'unsupplied-only'):
+            shape = 'all'
+        if not present:                      # (library shorter than the zone index: nothing available at all)
+            shape = 'unsupplied-only'
+        if shape == 'all':
+            rows = [(t, e) for e in present]
+        elif shape == 'subset':
+            rows = [(t, e) for e in rng.sample(present, rng.randint(1, len(present)))]
+        elif shape == 'supplied+unsupplied':
+            rows = [(t, rng.choice(present)), (t, rng.choice(missing))]
+            if len(present) > 1 and rng.random() < 0.5:
+                rows.append((t, present[-1]))
+        else:
+            rows = [(t, rng.choice(missing))]
+        others = [key for key in sorted(table) if key[0] != t]
+        for _ in range(rng.choice([0, 1, 1, 2])):
+            if others:
+                rows.append(rng.choice(others))
+        if rng.random() < 0.25:
+            rows.append(rng.choice(rows))                                         # duplicate row
+        rng.shuffle(rows)
+        fr, _fk = gen_fracs(rng, len(rows), True)
+        bld = [(tt, era_text(rng, ERAS[e]), f) for (tt, e), f in zip(rows, fr)]
+        cl, bd, bh = gen_geom(rng, dyadic)
+        out.append({'zone': zone, 'lib': lib, 'customs': customs, 'bld': bld,
+                    'ov': gen_overrides(rng, dyadic), 'cl': cl, 'bd': bd, 'bh': bh, 'table': table,
+                    'flags': flags, 'kinds': {'era-family', 'era-' + kind, 'era-' + shape}})
+    return out
+
+
 def gen_overrides(rng, dyadic=False, subset=None):
     ov = {}
     for idx, name in enumerate(OVS):
@@ -274,7 +350,9 @@ def gen_overrides(rng, dyadic=False, subset=None):
             r = rng.random()
             # 0 is rejected by the setter (tie S); the division path for 0 is still compared, with
             # the setter bypassed (flag flrh0-bypass, no oracle)
+            # (tall storeys too: 6.5, 9, 12 m halls - above the height of a low district)
             ov[name] = (F(0) if r < 0.03 else F(1) if r < 0.12 else F(1, 64) if r < 0.16 else
+                        rng.choice([F(13, 2), F(9), F(12), F(25)]) if r < 0.3 else
                         rq(rng, 1, 6, 8) or F(3))
         else:
             r = rng.random()
@@ -283,10 +361,15 @@ def gen_overrides(rng, dyadic=False, subset=None):
 
 
 def gen_geom(rng, dyadic=False):
+    """(charlength, blddensity, bldheight). One case in four is a LOW district (average height 2..6 m:
+    single-storey halls), so that an override is also met next to geometry that is smaller than it
+    (flr_h above, at and below bldheight)."""
+    low = rng.random() < 0.25
     if dyadic:
-        return F(1024), F(1, 2), F(16)
+        return F(1024), F(1, 2), (rng.choice([F(2), F(5, 2), F(4), F(5), F(6)]) if low else F(16))
     return (rng.choice([F(1000), F(500), F(2501, 10)]), rq(rng, 0.1, 0.9, 100) or F(1, 2),
-            rq(rng, 4, 60, 10) or F(10))
+            (rng.choice([F(2), F(5, 2), F(3), F(4), F(9, 2), F(5), F(6)]) if low else
+             rq(rng, 4, 60, 10) or F(10)))
 
 
 def gen_case(rng, subset=None):
@@ -387,10 +470,12 @@ class Kit(object):
 
     def sch(self, c):
         t, e, pid, v = c
-        return self.SchDef(elec=self.week, gas=self.week, light=self.week, occ=self.week,
-                           cool=self.week, heat=self.week, swh=self.week, q_elec=F(10), q_gas=F(3),
-                           q_light=F(10), n_occ=F(1, 10), vent=F(1, 1000), v_swh=F(1, 5),
-                           bldtype=t, builtera=ERAS[e])
+        s = self.SchDef(elec=self.week, gas=self.week, light=self.week, occ=self.week,
+                        cool=self.week, heat=self.week, swh=self.week, q_elec=F(10), q_gas=F(3),
+                        q_light=F(10), n_occ=F(1, 10), vent=F(1, 1000), v_swh=F(1, 5),
+                        bldtype=t, builtera=ERAS[e])
+        s.zonetype = 'p%d' % pid       # the same marker as the BEMDef of this cell (pairing oracle)
+        return s
 
     def build_lib(self, lib):
         rb = [[[self.bem(c) if c else None for c in era] for era in row] for row in lib['cells']]
@@ -414,6 +499,7 @@ def read_result(m, real_pid=None, exact=True):
                      'zonetype': b.zonetype, 'frac': F(b.frac), 'fl_area': F(b.fl_area),
                      'vals': tuple(F(x) for x in vals), 'raw': (b.frac,) + vals})
     return {'err': None, 'entries': ents,
+            'sch': [(x.bldtype, x.builtera, x.zonetype) for x in m.Sch],
             'totals': (F(m.r_glaze_total), F(m.SHGC_total), F(m.alb_wall_total)),
             'raw_totals': (m.r_glaze_total, m.SHGC_total, m.alb_wall_total)}
 
@@ -505,7 +591,7 @@ def real_customs(ref, sch, customs, as_float=False):
         b = copy.deepcopy(ref[src][(e + 1) % 3][(7 * n + 2) % 16])
         s = copy.deepcopy(sch[src][(e + 1) % 3][(7 * n + 2) % 16])
         b.bldtype, b.builtera, b.zonetype = t, ERAS[e], 'p%d' % p
-        s.bldtype, s.builtera = t, ERAS[e]
+        s.bldtype, s.builtera, s.zonetype = t, ERAS[e], 'p%d' % p
         set_vals(b, tuple(float(x) for x in v) if as_float else v)
         cb.append(b)
         csch.append(s)
@@ -551,6 +637,7 @@ def impl_generate(plain, rl, cs):
     except AssertionError:
         return None                                    # setter-rejected stock: tie S
     m.zone = cs['zone']
+    m.bldheight = float(cs['bh'])
     for k in OVS:
         v = cs['ov'][k]
         if k == 'flrh' and v == 0:
@@ -618,6 +705,16 @@ def oracle_c07(cs, res):
     tin, tout = sum(f for _, _, f in cs['bld']), sum(e['frac'] for e in res['entries'])
     if tin != tout:
         return 'simulated fractions sum to %s, stock list sums to %s' % (tout, tin)
+    # "each has the requested type and era": an archetype is a BEMDef AND the schedule set it is driven
+    # with - simulate() pairs BEM[k] with Sch[k]. Library cells and customs carry one marker in both.
+    sch = res.get('sch')
+    if sch is not None:
+        if len(sch) != len(res['entries']):
+            return '%d schedule sets for %d simulated archetypes' % (len(sch), len(res['entries']))
+        for k, (e, s_) in enumerate(zip(res['entries'], sch)):
+            if s_ != (e['type'], ERAS[e['era']], e['zonetype']):
+                return ('BEM[%d] = %s/%s (object %s) is paired with Sch[%d] = the schedule set of %s/%s '
+                        '(object %s)' % (k, e['type'], ERAS[e['era']], e['zonetype'], k, s_[0], s_[1], s_[2]))
     return None
 
 
@@ -707,7 +804,7 @@ def case_json(cs):
 
 def classify_case(cs, res):
     if res['err']:
-        return 'err-' + res['err']
+        return 'err-' + res['err'] + ('-eras' if 'era-family' in cs['kinds'] else '')
     tags = []
     if cs['customs']:
         tags.append('custom')
@@ -717,6 +814,8 @@ def classify_case(cs, res):
         tags.append('proxyzone')
     if cs['flags'] & SKIP_FLAGS:
         tags.append('nonwf')
+    if 'era-family' in cs['kinds']:
+        tags.append('eras')
     return 'ok' + ('-' + '-'.join(tags) if tags else '')
 
 
@@ -770,18 +869,28 @@ class Session(object):
             for a in attrs:
                 vals = [None, F(0), F(1), F(1, 2), F(-1, 1000), F(1001, 1000), F(2), F(-3), F(10 ** 6)]
                 vals += [rq(rng, -1, 2, 64) for _ in range(6)]
+                # a hair inside and a hair outside the limits of the range (1e-9 .. 1e-300 away from 0 and 1)
+                import t2_util as T
+                inside, outside = T.near_limit_fractions()
+                vals += (inside + outside) if kind == '01' else inside[:7] + outside[:6]
                 for v in vals:
                     m = kit.UWG(EPW)
+                    stored = None
                     try:
                         setattr(m, a, v)
-                        ans = 'ok' if getattr(m, a) == v else 'err fatal'
+                        stored = getattr(m, a)
+                        ans = 'ok' if stored == v else 'err fatal'
                     except Exception as e:  # noqa: BLE001
                         ans = 'err ' + err_class(e)
                     want = (v is None or (0 < v if kind == 'pos' else 0 <= v <= 1))
-                    if (ans == 'ok') != want and self.focus == 'C08':
+                    if ((ans == 'ok') != want or ans == 'err fatal') and self.focus == 'C08':
+                        self.nset_bad = getattr(self, 'nset_bad', 0) + 1
+                    if ((ans == 'ok') != want or ans == 'err fatal') and self.focus == 'C08' and self.nset_bad <= 2:
                         chk.violation('impl-violation', 'override setter %s' % a,
-                                      case={'attribute': a, 'value': str(v)}, observed=ans,
-                                      expected='accepted' if want else
+                                      case={'attribute': a, 'value': str(v), 'value_as_float': '%r' % float(v)},
+                                      observed=ans if ans != 'err fatal' else
+                                      'accepted, but the override then reads %s (%r)' % (stored, float(stored)),
+                                      expected='accepted and stored unchanged' if want else
                                       'rejected with AssertionError (floor height must be > 0, '
                                       'ratios within [0, 1])')
                     pairs.append(('setov kind=%s v=%s' % (kind, 'none' if v is None else frac_str(v)),
@@ -789,7 +898,9 @@ class Session(object):
         chk.correspond(
             'setters~bldSetter/ovSetter', 'C07', pairs,
             rule='real `bld` setter (fractionised source) on every generated stock list and the six '
-                 'override setters on None, 0, 1, interior, just-outside and far-outside values vs '
+                 'override setters on None, 0, 1, interior, just-outside and far-outside values, and on values '
+                 'a hair inside / outside the limits (10^-9 .. 10^-300 and 2^-60 away from 0 and from 1; the '
+                 'value read back must be the value assigned) vs '
                  'Lean `bldSetter`/`ovSetter01`/`ovSetterPos`; accept/reject must agree; '
                  'non-trivial = accepted',
             classify=lambda line, impl: line.split(' ')[0] + ('-ok' if impl == 'ok' else '-reject'))
@@ -818,7 +929,12 @@ class Session(object):
             rule='REAL _customize_reference_data + _compute_BEM (source run over exact Fractions) on '
                  'a synthetic library of real BEMDef/Building/Element objects (None cells, customs '
                  'that replace / extend / collide, libraries shorter than the zone index, cells whose '
-                 'era attribute disagrees with the slot) vs Lean generateBEM: error class, or '
+                 'era attribute disagrees with the slot; the era family: ONE type present in some eras '
+                 'only - a new custom type supplied for 1, 2 or 3 eras in any listing order, with a revised '
+                 'custom / a second new type / a replaced DOE cell beside it, or a library row with a None '
+                 'cell - and stocks naming all / some of its supplied eras, a supplied AND an unsupplied '
+                 'era, only an unsupplied era; low districts: bldheight 2 .. 6 m with flr_h up to 25 m) '
+                 'vs Lean generateBEM: error class, or '
                  '[wf lines: the decidable hypotheses ShapeOK/SlotOK/KeysUnique/RefLib of the '
                  'theorems evaluated by Lean and by the harness on the same library] '
                  '(type, era, object identity, fraction, floor area, six attributes) of every '
@@ -855,7 +971,9 @@ class Session(object):
             '_customize+_compute_BEM~generateBEM(shipped library)', 'C07', pairs,
             rule='the same two real methods on the shipped 16x3x16 library (six attributes converted '
                  'losslessly to Fractions), every one of the 18 zones, customs made from shipped '
-                 'archetypes, vs Lean generateBEM on the same library; exact as above',
+                 'archetypes (incl. the era family of new custom types, one member per zone), vs Lean '
+                 'generateBEM on the same library; exact as above; the oracle also demands that Sch[k] is '
+                 'the schedule set of BEM[k] (library cells and customs carry one marker in both halves)',
             nontrivial=lambda line, impl: line.startswith('bem') and impl.startswith('ok'),
             classify=lambda line, impl: tags.get(line, 'lib').split(':')[-1])
         chk.assumptions.append('the shipped library satisfies RefLib/SlotOK/KeysUnique/ShapeOK at all '
@@ -892,7 +1010,8 @@ class Session(object):
                  'deep copies, read EPW, select) for every zone, dyadic fractions and overrides as '
                  'doubles, vs Lean generateBEM: (type, era, object identity via bldtype/builtera/'
                  'zonetype, fraction, six carried attributes) of BEM in order, exact values of the '
-                 'doubles; totals are doubles and judged by the oracle (same operations, same bits)',
+                 'doubles; totals are doubles and judged by the oracle (same operations, same bits); '
+                 'bldheight is assigned too (16 m, or a low district of 2 .. 6 m); era family as in tie A',
             nontrivial=lambda line, impl: line.startswith('sel') and impl.startswith('ok'),
             classify=lambda line, impl: tags.get(line, 'lib'))
 
@@ -1215,6 +1334,92 @@ def identity_ties(chk, plain):
                 len(findings), len(lib_stocks), findings[0][0]['bld'], '; '.join(findings[0][1][:2]), alias_steps))
 
 
+# ------------------------------------------------------------------------------- archetype = BEMDef + schedules
+def era_schedule_runs(chk, plain):
+    """C07 'each has the requested type and era ... custom archetypes replace or extend the reference set',
+    for the half of an archetype that the BEM list does not show: the schedule set `simulate()` drives it with
+    (Sch[k] for BEM[k]). Customs of ONE type in several eras, each era with its own set points and loads,
+    through the unmodified package:
+      * after generate(): Sch[k] is, value for value, the schedule set supplied for (type, era) of BEM[k]
+        (the shipped one for DOE rows);
+      * twins: the same archetypes supplied under one type name (several eras) and under separate type names
+        describe the same city: bit-identical hourly records of 1-day runs."""
+    import t2_util as T
+    import uwgutil as U
+    rng = chk.rng
+    quick = chk.tier == 'quick'
+    work = chk.work()
+    members = T.era_schedule_members(rng, quick)
+    nbad = ncase = nsim = 0
+    branches = {}
+
+    def bad(what, case, observed, expected):
+        nonlocal nbad
+        nbad += 1
+        if nbad <= 3:
+            chk.violation('impl-violation', what, case=case, observed=observed, expected=expected)
+
+    def model(bv, sv, bld, zone):
+        return plain.UWG.from_param_args(
+            10.0, 0.5, 0.8, 0.1, 0.1, zone, month=1, day=2, nday=1, dtsim=300, bld=bld, epw_path=EPW,
+            new_epw_dir=work, new_epw_name='erasch.epw', ref_bem_vector=bv, ref_sch_vector=sv)
+
+    pristine_sch = plain.UWG.load_refDOE()[1]
+    for mem in members:
+        case = {'customs (type, era, cooling set point C, q_elec W/m2, listing order)': mem['describe'],
+                'bld': mem['bld'], 'zone': mem['zone']}
+        branches[mem['kind']] = branches.get(mem['kind'], 0) + 1
+        results = []
+        for names in (mem['one_type'], mem['separate_types']):
+            bv, sv = T.era_customs(plain, mem, names)
+            bld = [(names[i], e, f) for (i, e, f) in mem['rows']] + list(mem['doe_rows'])
+            want = {(b.bldtype, b.builtera): U.fingerprint(s_) for b, s_ in zip(bv, sv)}   # (later custom wins)
+            try:
+                m = model(bv, sv, bld, mem['zone'])
+                with quiet():
+                    m.generate()
+            except Exception as e:  # noqa: BLE001
+                bad('generate() with customs of one type in several eras', case,
+                    '%s: %s' % (type(e).__name__, str(e)[:200]), 'the stock is realisable')
+                results.append(None)
+                continue
+            ncase += 1
+            zi = REFZ.index(proxy(mem['zone']))
+            if len(m.Sch) != len(m.BEM):
+                bad('one schedule set per simulated archetype', case,
+                    '%d schedule sets for %d archetypes' % (len(m.Sch), len(m.BEM)), 'equal length')
+            for k, (b, s_) in enumerate(zip(m.BEM, m.Sch)):
+                key = (b.bldtype, b.builtera)
+                if key in want:
+                    exp = want[key]
+                else:
+                    exp = U.fingerprint(pristine_sch[REF_BLDTYPE.index(b.bldtype)][ERAS.index(b.builtera)][zi])
+                if U.fingerprint(s_) != exp:
+                    bad('schedule set simulated with an archetype (Sch[k] of BEM[k])', case,
+                        'BEM[%d] = %s/%s is driven by the schedule set of %s/%s: cooling set point %r C, q_elec %r '
+                        'W/m2' % (k, b.bldtype, b.builtera, s_.bldtype, s_.builtera, s_.cool[0][12], s_.q_elec),
+                        'the schedule set supplied for %s/%s (value for value)' % key)
+                    break
+            if mem['simulate']:
+                with quiet():
+                    m.simulate()
+                nsim += 1
+                results.append(U.records(m))
+        if mem['simulate'] and len(results) == 2 and None not in results and results[0] != results[1]:
+            d = max((abs(float(a[0]) - float(b[0])) for a, b in zip(*results) if a and b), default=float('nan'))
+            bad('the same archetypes under one type name (several eras) and under separate type names', case,
+                'hourly records differ (canyon temperature by up to %.3e K)' % d,
+                'bit-identical hourly records: both describe the same buildings, schedules and fractions')
+    chk.direct('archetype=BEMDef+schedule-set(customs of one type in several eras)', ncase + nsim, ncase + nsim,
+               'unmodified package, keyword route. Explored: a new custom type (and a DOE type that customs '
+               'replace) supplied for 2 or 3 eras, every era with its own cooling / heating set points, plug load '
+               'and occupancy, customs listed in era order, reversed and rotated, stock naming all or some of the '
+               'supplied eras next to DOE rows, several zones: after generate() Sch[k] must equal (deep digest) '
+               'the schedule set supplied for the type and era of BEM[k] - the shipped one for DOE rows; twins '
+               '(%d one-day simulations): the same BEMDef/SchDef pairs under ONE type name vs under separate type '
+               'names give bit-identical hourly records' % nsim, mismatches=nbad, branches=branches)
+
+
 def build_cases(chk, rl, focus):
     rng = chk.rng
     quick = chk.tier == 'quick'
@@ -1243,6 +1448,15 @@ def build_cases(chk, rl, focus):
     for z in ZONES18:
         for _ in range(2 if quick else 10):
             gen.append(gen_real_case(rng, rl, z, dyadic=True))
+    # one building type in some eras only / in several eras at once (see era_family)
+    for _ in range(16 if quick else 200):
+        zone = rng.choice(ZONES18)
+        synth += era_family(rng, gen_lib(rng, REFZ.index(proxy(zone))), zone, 3)
+    if focus == 'C07' or not quick:
+        for z in ZONES18:
+            real += era_family(rng, rl.spec, z, 1 if quick else 8, real=True)
+        for z in rng.sample(ZONES18, 10) if quick else ZONES18 * 3:
+            gen += era_family(rng, rl.spec, z, 1, dyadic=True, real=True)
     return synth, real, gen
 
 
@@ -1316,6 +1530,14 @@ def replay(chk, path, focus='C07'):
         else:
             res = impl_synthetic(kit, cs)
         msg = oracle_c07(cs, res) if focus == 'C07' else oracle_c08(cs, res, cs['tie'] != 'C')
+    elif any(k.startswith('customs') for k in case) and 'zone' in case:
+        # live ties (identity structure / schedule pairing): their members are fixed lists, re-run them
+        if 'pattern' in case:
+            identity_ties(chk, plain)
+        else:
+            era_schedule_runs(chk, plain)
+        if chk.violations:
+            msg = chk.violations[0]['observed']
     else:
         print('replay: %s records no concrete input (%s)' % (path, v.get('theorem_or_tie')), flush=True)
         return 1
@@ -1341,6 +1563,7 @@ def run(chk, focus='C07', module=MODULE, theorems=THEOREMS):
     if focus == 'C07':
         split_stock_runs(chk, ses.plain)
         identity_ties(chk, ses.plain)
+        era_schedule_runs(chk, ses.plain)
     report(chk, ses, focus)
     chk.assumptions.append(
         '_compute_BEM/_customize_reference_data are exercised through fracexec (exact rationals) '
